@@ -117,6 +117,40 @@ async def one(ctx, sq, n, par, rnd, good_port):
             outcome = 'close'
         await o.stop()
         return {'e': 'Adversarial', 'outcome': outcome, 'par': par}
+    if par['stage'] == 'volume':
+        async def vresponder(q, oc):
+            await oc.send(peers.response_head(200, 'OK', [('Content-Length', '2'), ('Cache-Control', 'no-store')]) + b'ok')
+            return False
+        o = await peers.Origin(rec, vresponder, stall=2.0, rcvbuf=4096).start()
+        total = 300000 if par['cls'] == 'chunked_one_byte_chunks' else 12000000
+        hs = [('Connection', 'close')]
+        if par['cls'] == 'length_body':
+            hs.append(('Content-Length', str(total)))
+            payload = b'v' * total
+        else:
+            hs.append(('Transfer-Encoding', 'chunked'))
+            parts, pos = [], 0
+            while pos < total:
+                k = {'chunked_8k_chunks': 8192, 'chunked_odd_chunks': 4093, 'chunked_one_byte_chunks': 1}.get(par['cls']) or rnd.choice([1, 17, 4096, 8191, 65535, 65536, 65537, 200000])
+                k = min(k, total - pos)
+                parts.append(b'%x\r\n' % k + b'v' * k + b'\r\n')
+                pos += k
+            payload = b''.join(parts) + b'0\r\n\r\n'
+        outcome = 'close'
+        c = peers.Client(rec, sq.port)
+        try:
+            await c.open()
+            try:
+                await asyncio.wait_for(c.send(peers.request_bytes('POST', 'http://127.0.0.1:%d/c09v/%d' % (o.port, n), hs, vid=n, host='127.0.0.1:%d' % o.port) + payload), 30.0)
+            except (asyncio.TimeoutError, ConnectionError, OSError):
+                pass
+            r = await c.response('POST', 20.0, vid=n)
+            outcome = 'response' if r.status is not None else 'close'
+            c.close()
+        except (ConnectionError, OSError):
+            pass
+        await o.stop()
+        return {'e': 'Adversarial', 'outcome': outcome, 'par': par}
     chunked = par['stage'] in ('chunksize', 'chunkext', 'chunkeol', 'lastchunk', 'trailer', 'tevalue') or rnd.random() < 0.3
     outcome = 'none'
     if par['side'] == 'client':
@@ -209,7 +243,7 @@ def run(ctx):
     ctx.cov['outcomes'] = {o: sum(1 for h in hist for e in h['ev'] if e['e'] == 'Adversarial' and e['outcome'] == o) for o in ('response', 'close', 'none')}
     for h in hist[:1]:
         ctx.sample({'batch_inputs': h['pars'][:5], 'events': h['ev'][:5] + h['ev'][-1:]})
-    ctx.cov['rule'] = ('inputs = RobustScen.tla: one stream per (side, parser stage, offending byte class) - a valid request/response skeleton damaged at that stage; batches of 60 followed by '
+    ctx.cov['rule'] = ('inputs = RobustScen.tla: one stream per (side, parser stage, offending byte class) - a valid request/response skeleton damaged at that stage; plus semantic extremes and 12 MB uploads (chunked in several chunkings, or Content-Length) towards an origin that reads late behind a small window; batches of 60 followed by '
                        'a clock jump (so Squid\'s own timeouts end half-open connections) and a probe transaction; TLC validates each batch history against Robust.tla. Distinct = distinct class.')
     ctx.assumptions += ['quick tier runs the normal (hooks) build: assertion failures and crashes are observed as exit; out-of-bounds/use-after-free that do not crash are NOT observed (no ASan build in this tier)',
                         'memory-safety clause is therefore decided only as far as it manifests as an exit: level exploration']
